@@ -1,5 +1,8 @@
 #include "hashbuffer.h"
 #include <string.h>
+#ifdef WENCRY_VERIF
+u32_t filebuffer64::HBUF_SZ = filebuffer64::HBUF_CAP;
+#endif
 /*
 构造函数:加载拼接的数据
 block:拼接块
